@@ -109,6 +109,16 @@ func isResp(t byte) bool {
 
 func keyOf(src, seq int) string { return fmt.Sprintf("%d/%d", src, seq) }
 
+// rawKey identifies a payload that does not carry the harness's attribution
+// header (raw packets of attacker scripts) by its content.
+func rawKey(p []byte) string {
+	h := uint64(14695981039346656037)
+	for _, b := range p {
+		h = (h ^ uint64(b)) * 1099511628211
+	}
+	return fmt.Sprintf("raw:%d:%016x", len(p), h)
+}
+
 // connEnd returns the stamp until which the connection certainly existed from
 // the broker's point of view.
 func connCertainEnd(c *Conn) int64 {
@@ -205,7 +215,8 @@ func (m *Model) buildPubs() {
 					key = "empty:" + p.Topic
 					src, seq = c.Client, -1
 				} else if !ok {
-					continue // harness never sends these
+					key = rawKey(p.Payload)
+					src, seq = c.Client, -2
 				}
 				pub := &Pub{Key: key, Src: src, Seq: seq, Topic: p.Topic, QoS: p.QoS, Retain: p.Retain, Payload: p.Payload, C: c, W: w, Lo: w.First, Hi: inf}
 				if p.QoS == 2 {
@@ -463,6 +474,8 @@ func (m *Model) buildDeliveries() {
 			if len(w.P.Payload) == 0 {
 				d.Key = "empty:" + w.P.Topic
 				d.Intact = true
+			} else if !d.Intact {
+				d.Key = rawKey(w.P.Payload)
 			}
 			m.Deliv = append(m.Deliv, d)
 		}
@@ -487,6 +500,8 @@ func (m *Model) buildDeliveries() {
 		if len(ev.Payload) == 0 {
 			d.Key = "empty:" + ev.Topic
 			d.Intact = true
+		} else if !d.Intact {
+			d.Key = rawKey(ev.Payload)
 		}
 		m.Deliv = append(m.Deliv, d)
 	}
@@ -544,7 +559,8 @@ func (m *Model) buildWills() {
 			key = "empty:" + cp.WillTopic
 			src, seq = srcWill+c.Client, c.Idx
 		} else if !ok {
-			continue
+			key = rawKey(cp.WillMessage)
+			src, seq = srcWill+c.Client, c.Idx
 		}
 		m.Pubs = append(m.Pubs, &Pub{Key: key, Src: src, Seq: seq, Topic: cp.WillTopic, QoS: cp.WillQoS, Retain: cp.WillRetain, Payload: cp.WillMessage, C: c, Lo: lo, Hi: hi, Certain: true, Will: true})
 	}
